@@ -2,6 +2,7 @@
    Only theorem statements, each closed by `exact <lemma>`, with Print Assumptions beneath. *)
 From Coq Require Import ZArith QArith List Bool.
 Require Import DS.Model.Value DS.Gen.GenPrune DS.Model.Prune DS.Proofs.PruneProofs.
+Require Import DS.Model.BoundPrim DS.Gen.GenBound DS.Model.Bound DS.Proofs.BoundProofs.
 Import ListNotations.
 Open Scope Z_scope.
 
@@ -31,6 +32,14 @@ Theorem C13_bounds_true : forall (vs : list value) (lo hi : value),
       \/ (lo = VFlt NaN /\ hi = VFlt NaN /\ forall v, In v vs -> ordinary v = false)).
 Proof. exact bounds_true. Qed.
 Print Assumptions C13_bounds_true.
+
+(* Bounds survive the manifest round trip type-faithfully: decoding the encoded bound gives back the
+   very value -- same kind (bool stays bool, int stays int: the isinstance ORDER in the regenerated
+   encoder matters), same number (any integer magnitude, any float incl. NaN / inf / -0.0 / float32
+   values), same string, same date / time / timestamp. *)
+Theorem C13_bound_roundtrip : forall v : value, boundable v = true -> dec (enc v) = v.
+Proof. exact bound_roundtrip. Qed.
+Print Assumptions C13_bound_roundtrip.
 
 (* Non-vacuity: a concrete two-column file {x: 5.0, NaN, NULL; s: "a","b","c"} meets the hypotheses,
    is pruned for x > 7, for s < "a" and for s IN ["d";"e"], and is NOT pruned for x != 5.0 nor for
